@@ -140,6 +140,10 @@ def run(ctx):
         recs = gen.family(rng, kind, rng.randint(2, 9), rng.choice([10, 55, 60, 118, 130, 300]), sub=0.1, indel=0.05)
         t = rng.choice([3, 4, 5]) if kind == "protein" else rng.choice([0, 1, 2, 5])
         t = gen.fit_type(t, kind, recs)
+        if i % 3 == 1 and len(recs) >= 3:
+            # records without residues in the middle of the input (dropped by the library; the remaining rows keep their input positions as rank)
+            for _ in range(rng.randint(1, 3)):
+                recs.insert(rng.randint(0, len(recs) - 1), ("empty%d" % len(recs), ""))
         for f in ("fasta", "msf", "clu"):
             c = Case(recs, t, fmt=f, threads=rng.choice([1, 4]))
             c.protein = kind == "protein"
